@@ -11,6 +11,7 @@ crosswire between the sides, and faults placed in every component.
 import os
 import time
 import shutil
+import threading as mt
 
 from ..core      import Result, digest
 from ..harness   import rp, ru, rps, rpc, make_td
@@ -35,7 +36,8 @@ MANIFEST = {
             'fault; FAILED with exit code / exception otherwise; CANCELED only '
             'if requested; all component threads alive; the second wave '
             'completes.'
-            '  Second session: endings include a process group killed by a signal RP did not send (must end FAILED with a non-zero exit code); waits are activity based (no transport event for 12 s after the budget = stuck, busy at 240 s = inconclusive).',
+            '  Second session: endings include a process group killed by a signal RP did not send (must end FAILED with a non-zero exit code); waits are activity based (no transport event for 12 s after the budget = stuck, busy at 240 s = inconclusive).'
+            '  Third session: fate cancel_exit sends the cancel request when the task process is just ending (its last action is a marker file; the request follows 4-45 ms later), i.e. between exit and collection by the executor; deliveries of the executor\'s periodic empty publication do not count as activity.',
     'note': 'threads and processes are real (statistical reproduction); '
             '"eventually final" is restated as: final before a generous '
             'watchdog while nothing is running any more; the PMGR/bootstrap '
@@ -62,7 +64,8 @@ POINTS = ['tmgr_sched', 'tmgr_stagein', 'agent_stagein', 'agent_sched',
 BULKS  = ['work:agent_stagein', 'work:agent_stageout', 'work:tmgr_stagein']
 FATES  = ['ok', 'ok', 'ok', 'exit', 'exit', 'signal', 'no_launcher',
           'unfittable',
-          'cancel_early', 'cancel_run', 'timeout', 'ok_staged', 'ok_staged',
+          'cancel_early', 'cancel_run', 'cancel_exit', 'timeout',
+          'ok_staged', 'ok_staged',
           'missing_input', 'missing_output'] + \
          ['poison:' + p for p in POINTS] + BULKS
 
@@ -76,7 +79,9 @@ def gen_case(rng):
                       'code': rng.choice([1, 2, 7, 42]),
                       'sig': rng.choice(['TERM', 'KILL', 'HUP', 'SEGV']),
                       'dur': rng.choice([0, 0, 0.05, 0.2]),
-                      'at': rng.choice([0.0, 0.05, 0.2, 0.5])})
+                      'at': rng.choice([0.0, 0.05, 0.2, 0.5]),
+                      'jit': rng.choice([0.004, 0.008, 0.012, 0.016, 0.02,
+                                         0.03, 0.045])})
     # cancel requests which are pending in some component's list when the
     # whole bulk it pulls fails there: a quarter of the histories are built
     # for that coincidence (one failing work routine, several requests at
@@ -107,6 +112,12 @@ def describe(t, root):
         # by a signal nobody in RP sent (OOM killer, admin, the job itself)
         kw['arguments'] = ['-c', 'sleep %s; kill -%s 0; sleep 5; exit 0'
                                  % (t['dur'], t.get('sig', 'TERM'))]
+    elif fate == 'cancel_exit':
+        # the request is sent when the process is just ending (the marker is
+        # its last action): it meets the executor between the exit and the
+        # collection of the process
+        kw['arguments'] = ['-c', 'sleep %s; : > %s/exitmark.%s; exit 0'
+                                 % (t['dur'], root, t['uid'])]
     elif fate in ('cancel_run', 'timeout'):
         kw['arguments'] = ['-c', 'sleep 8; exit 0']
         if fate == 'timeout':
@@ -186,6 +197,20 @@ def run_case(ctx, res, case, idx=0):
             tasks += mp.tmgr.submit_tasks(tds[k:])
         by_uid = {t.uid: t for t in tasks}
         res.see('pilots_per_history', case.get('pilots', 1))
+
+        # cancel requests at the end of the process
+        def cancel_at_exit(uid, jitter):
+            mark = '%s/exitmark.%s' % (mp.root, uid)
+            end  = time.time() + 60
+            while not os.path.exists(mark) and time.time() < end:
+                time.sleep(0.001)
+            time.sleep(jitter)
+            mp.tmgr.cancel_tasks(uid)
+            mp.hits.add('cancel_at_exit')
+        for t in case['tasks']:
+            if t['fate'] == 'cancel_exit':
+                mt.Thread(target=cancel_at_exit, daemon=True,
+                          args=[t['uid'], t.get('jit', 0.01)]).start()
 
         # cancel requests
         t0 = time.time()
@@ -295,7 +320,8 @@ def judge(case, res, mp, by_uid, seen, ok1, tasks2, ok2):
         st, ec, exc = task.state, task.exit_code, task.exception
         if fate in ('missing_input', 'missing_output'):
             mp.hits.add('real:' + fate)
-        requested = fate in ('cancel_early', 'cancel_run', 'timeout')
+        requested = fate in ('cancel_early', 'cancel_run', 'cancel_exit',
+                             'timeout')
 
         if fate in ('ok', 'ok_staged'):
             truth = [(rps.DONE, 0)]
@@ -309,7 +335,7 @@ def judge(case, res, mp, by_uid, seen, ok1, tasks2, ok2):
                 viol('signal-exit-code-lost', '%s: FAILED with exit code %s '
                      'after signal %s' % (uid, ec, t.get('sig')))
             res.count('signal_endings_judged')
-        elif fate == 'cancel_early':
+        elif fate in ('cancel_early', 'cancel_exit'):
             truth = [(rps.CANCELED, None), (rps.DONE, 0)]
         elif fate in ('cancel_run', 'timeout'):
             truth = [(rps.CANCELED, None)]
